@@ -87,7 +87,7 @@ func init() {
 			}
 			for i := 0; i < nsess; i++ {
 				sp := c14ReservedSpec(rng, i)
-				out = append(out, drv.Scenario{Kind: "reserved", Seed: seed, Params: mustJSON(c14Params{Spec: sp}), TimeoutS: 90})
+				out = append(out, drv.Scenario{Kind: "reserved", Seed: seed, Params: mustJSON(c14Params{Spec: sp}), TimeoutS: 90, Solo: sp.API})
 			}
 			for i := 0; i < nloop; i++ {
 				lp := &c14Loop{NumVB: 2 + rng.Intn(6), IntervalMs: 4 + rng.Intn(8), UserEvents: rng.Intn(30), Seed: rng.Int63(), Membership: i%4 == 3}
